@@ -1,6 +1,7 @@
 package world
 
 import (
+	bitcoinkeeper "github.com/goatnetwork/goat/x/bitcoin/keeper"
 	"fmt"
 	"math/big"
 	"sort"
@@ -99,6 +100,14 @@ func (w *World) Exec(o *tr.Op) string {
 			return "err"
 		}
 		return "ok"
+	case "q.depositaddr":
+		// the DepositAddress query of the bitcoin module (what the node hands out): address string and, for version 1, the
+		// data-output script
+		res, err := bitcoinkeeper.NewQueryServerImpl(w.Btc).DepositAddress(w.Ctx, &bitcointypes.QueryDepositAddress{Version: uint32(o.U64("version")), EvmAddress: o.Str("evm")})
+		if err != nil {
+			return "err"
+		}
+		return fmt.Sprintf("ok addr=%s opret=%s", res.Address, hexOrDash(res.OpReturnScript))
 	case "lock.validateparams":
 		p := lockingtypes.Params{
 			UnlockDuration: time.Duration(o.I64("unlock")), ExitingDuration: time.Duration(o.I64("exit")), DowntimeJailDuration: time.Duration(o.I64("jail")),
@@ -567,4 +576,11 @@ func must(err error) {
 	if err != nil {
 		panic(err)
 	}
+}
+
+func hexOrDash(b []byte) string {
+	if len(b) == 0 {
+		return "-"
+	}
+	return tr.Hex(b)
 }
